@@ -18,6 +18,7 @@ pub const CAP: usize = 4;
 pub static mut MODEL_BOUND_EXCEEDED: bool = false;
 static mut BLOCK_HOOK: Option<fn()> = None;
 static mut CHOICE_HOOK: Option<fn(usize) -> usize> = None;
+static mut READY_HOOK: Option<fn(usize)> = None;
 /// Number of times `Select::ready` returned (ghost counter for the harness).
 pub static mut READY_RETURNS: usize = 0;
 /// Number of messages successfully received through any channel (ghost counter).
@@ -25,11 +26,15 @@ pub static mut RECEIVED: usize = 0;
 
 /// Installs the scheduler called when `Select::ready` would block.
 pub fn set_block_hook(f: Option<fn()>) { unsafe { BLOCK_HOOK = f } }
+/// Installs a callback invoked every time `Select::ready` returns (argument: the index returned).
+pub fn set_ready_hook(f: Option<fn(usize)>) { unsafe { READY_HOOK = f } }
 /// Installs the chooser used when several operations are ready (`n` ready -> index `< n`).
 pub fn set_choice_hook(f: Option<fn(usize) -> usize>) { unsafe { CHOICE_HOOK = f } }
 
 struct Chan<T> {
-    buf: UnsafeCell<[Option<T>; CAP]>,
+    // boxed slots: an array of thin (niche-optimised) pointers keeps CBMC's constant propagation alive;
+    // an array of tagged enums inside a heap object does not
+    buf: UnsafeCell<[Option<Box<T>>; CAP]>,
     head: Cell<usize>,
     len: Cell<usize>,
     senders: Cell<usize>,
@@ -87,7 +92,7 @@ impl<T> Sender<T> {
             return Ok(());
         }
         let idx = (ch.head.get() + len) % CAP;
-        unsafe { (*ch.buf.get())[idx] = Some(msg); }
+        unsafe { (*ch.buf.get())[idx] = Some(Box::new(msg)); }
         ch.len.set(len + 1);
         Ok(())
     }
@@ -115,7 +120,7 @@ impl<T> Receiver<T> {
         ch.head.set((head + 1) % CAP);
         ch.len.set(len - 1);
         unsafe { RECEIVED += 1; }
-        match msg { Some(m) => Ok(m), None => Err(TryRecvError::Empty) }
+        match msg { Some(m) => Ok(*m), None => Err(TryRecvError::Empty) }
     }
     /// Ghost: number of queued messages.
     pub fn len(&self) -> usize { self.ch.len.get() }
@@ -162,11 +167,13 @@ impl<'a> Select<'a> {
                 let pick = match unsafe { CHOICE_HOOK } { Some(f) if cnt > 1 => f(cnt) % cnt, _ => 0 };
                 let mut seen = 0;
                 let mut i = 0;
+                let mut res = 0;
                 while i < MAX_OPS {
-                    if r[i] { if seen == pick { return i; } seen += 1; }
+                    if r[i] { if seen == pick { res = i; break; } seen += 1; }
                     i += 1;
                 }
-                return 0;
+                if let Some(f) = unsafe { READY_HOOK } { f(res); }
+                return res;
             }
             match unsafe { BLOCK_HOOK } {
                 Some(f) => f(),
